@@ -271,10 +271,10 @@ def replay_file(prop, path):
 # parent
 # ----------------------------------------------------------------------------------------
 
-def _spawn(prop, part, shard, nshards, tier, seed, out, scale):
+def _spawn(prop, part, shard, nshards, tier, seed, out, scale, engine='hypothesis'):
     cmd = [sys.executable, os.path.join(HERE, 'run_check.py'), prop, '--worker', part,
            '--shard', '%d/%d' % (shard, nshards), '--tier', tier, '--out', out,
-           '--scale', repr(scale)]
+           '--scale', repr(scale), '--engine', engine]
     env = dict(os.environ)
     env['VERIF_SEED'] = str(seed)
     # output goes to a file: a PIPE that nobody drains blocks a chatty worker (elfi logs warnings) for ever
@@ -340,15 +340,27 @@ def parent(prop, tier, seed, scale=1.0, only_parts=None, max_procs=None):
             continue
         ns = part.shards[tier]
         for k in range(ns):
-            jobs.append((part.name, k, ns))
+            jobs.append((part.name, k, ns, 'hypothesis'))
+    fuzz_note = None
+    if os.environ.get('VERIF_FUZZ', '1') != '0':
+        from . import fuzz as _fuzz
+        want = [(part.name, k, part.fuzz_shards[tier], 'atheris') for part in check.parts
+                if (not only_parts or part.name in only_parts) and part.fuzz.get(tier, 0) > 0
+                for k in range(part.fuzz_shards[tier])]
+        if want and _fuzz.available():
+            if os.environ.get('VERIF_FUZZ') == 'only':      # development aid: coverage-guided shards alone
+                jobs = []
+            jobs.extend(want)
+        elif want:
+            fuzz_note = 'atheris not importable: coverage-guided shards skipped'
     running = []
     results = []
     pending = list(jobs)
     while pending or running:
         while pending and len(running) < max_procs:
-            pn, k, ns = pending.pop(0)
-            out = os.path.join(tmpdir, '%s-%d.json' % (pn, k))
-            running.append((_spawn(prop, pn, k, ns, tier, seed, out, scale), pn, k, out))
+            pn, k, ns, engine = pending.pop(0)
+            out = os.path.join(tmpdir, '%s-%s%d.json' % (pn, '' if engine == 'hypothesis' else 'fuzz', k))
+            running.append((_spawn(prop, pn, k, ns, tier, seed, out, scale, engine), pn, k, out))
         still = []
         for proc, pn, k, out in running:
             rc = proc.poll()
@@ -362,7 +374,10 @@ def parent(prop, tier, seed, scale=1.0, only_parts=None, max_procs=None):
             except OSError:
                 text = ''
             try:
-                results.append(json.load(open(out)))
+                r = json.load(open(out))
+                results.append(r)
+                if rc != 0 and not r.get('error') and r.get('engine') == 'atheris':
+                    harness_errors.append('fuzz worker %s/%d ended with rc=%s:\n%s' % (pn, k, rc, text[-3000:]))
             except Exception:
                 harness_errors.append('worker %s/%d died (rc=%s):\n%s' % (pn, k, rc, text[-3000:]))
         running = still
@@ -375,7 +390,11 @@ def parent(prop, tier, seed, scale=1.0, only_parts=None, max_procs=None):
     excluded = Counter()
     samples = []
     per_part = {}
+    engines = Counter()
     for r in results:
+        engines[r.get('engine', 'hypothesis')] += r['evaluations']
+        if r.get('skipped'):
+            fuzz_note = r['skipped']
         if r.get('error'):
             harness_errors.append('worker %s/%s: %s' % (r['part'], r['shard'], r['error']))
         evaluations += r['evaluations']
@@ -437,7 +456,10 @@ def parent(prop, tier, seed, scale=1.0, only_parts=None, max_procs=None):
         'regress_replays': regress_run,
         'exhaustive': False,
         'explanation': ('harness errors: %d' % len(harness_errors)) if harness_errors else 'all shards completed',
+        'engines': dict(engines),
     }
+    if fuzz_note:
+        coverage['explanation'] += '; ' + fuzz_note
     extra = getattr(check, 'coverage_extra', None)
     if extra:
         coverage.update(extra(tier, results))
@@ -460,9 +482,8 @@ def parent(prop, tier, seed, scale=1.0, only_parts=None, max_procs=None):
     if low:
         print('  note: parts with <5%% non-trivial cases: %s' % ', '.join(low))
     try:
-        for fn in os.listdir(tmpdir):
-            os.unlink(os.path.join(tmpdir, fn))
-        os.rmdir(tmpdir)
+        import shutil
+        shutil.rmtree(tmpdir)
     except OSError:
         pass
     if nviol:
@@ -500,6 +521,7 @@ def main(argv=None):
     ap.add_argument('--shard', default='0/1')
     ap.add_argument('--out')
     ap.add_argument('--scale', type=float, default=float(os.environ.get('VERIF_SCALE', '1.0')))
+    ap.add_argument('--engine', default='hypothesis', choices=['hypothesis', 'atheris'])
     ap.add_argument('--parts', default=None, help='comma separated subset of parts (no evidence written)')
     a = ap.parse_args(argv)
     prop = a.prop.upper()
@@ -509,6 +531,9 @@ def main(argv=None):
         seed = zlib.crc32(os.environ['VERIF_SEED'].encode())
     if a.worker:
         k, n = a.shard.split('/')
+        if a.engine == 'atheris':
+            from .fuzz import fuzz_worker
+            return fuzz_worker(prop, a.worker, int(k), int(n), a.tier, seed, a.out, a.scale)
         return worker(prop, a.worker, int(k), int(n), a.tier, seed, a.out, a.scale)
     if a.regress:
         return regress(prop, a.out)
